@@ -5,6 +5,7 @@ table under `enqueue_state_if_needed` (new state or LALR merge into the state wi
 transition is backed by the items of its two ends, and every symbol right of a dot has its transition.
 -/
 import KikiVerif.Proofs.Cores
+import KikiVerif.Proofs.First
 
 set_option linter.unusedSimpArgs false
 set_option linter.unusedVariables false
@@ -87,6 +88,125 @@ theorem addItems_spec : ∀ (l : List Item) (st : Oset Item) (added : Bool), Ose
       · have := (h3 hf).1
         cases this
 
+theorem mem_transitionItems {c : Ctx} {S : State} {X : Sym Nat Nat} {y : Item} :
+    y ∈ transitionItems c S X ↔ ∃ x ∈ S, symRightOfDot c x = some X ∧ y = { x with dot := x.dot + 1 } := by
+  unfold transitionItems
+  rw [List.mem_filterMap]
+  constructor
+  · rintro ⟨x, hx, h⟩
+    split at h
+    · rename_i hs; cases h; exact ⟨x, hx, hs, rfl⟩
+    · cases h
+  · rintro ⟨x, hx, hs, rfl⟩
+    exact ⟨x, hx, by rw [if_pos hs]⟩
+
+theorem implied_dot {c : Ctx} {fm : List FirstSet} {x y : Item} {imp : List Item}
+    (h : impliedItems c fm x = some imp) (hy : y ∈ imp) : y.dot = 0 ∧ y.rule < c.numRules := by
+  unfold impliedItems at h
+  split at h
+  · split at h
+    · cases h
+    · cases h
+      simp only [List.mem_flatMap, List.mem_map] at hy
+      obtain ⟨la, _, r, hr, rfl⟩ := hy
+      refine ⟨rfl, ?_⟩
+      unfold ruleIndicesFor at hr
+      simp only [List.mem_map, List.mem_filter] at hr
+      obtain ⟨⟨rule, j⟩, ⟨hm, _⟩, rfl⟩ := hr
+      have := List.mem_zipIdx hm
+      simp at this
+      exact this.1
+  · cases h; cases hy
+
+/-! ### well-formed items -/
+
+def WfItem (c : Ctx) (y : Item) : Prop :=
+  y.rule ≤ c.numRules ∧ y.dot ≤ (rhsOf c y.rule).length ∧ y.la ≤ c.nT
+
+theorem mem_insert_sub {s : Oset Nat} {x y : Nat} (h : y ∈ (s.insert x).raw) : y = x ∨ y ∈ s.raw := by
+  unfold Oset.insert at h
+  split at h
+  · exact Or.inr h
+  · simp only [Oset.insertAt, List.mem_append, List.mem_cons] at h
+    rcases h with h | rfl | h
+    · exact Or.inr (List.mem_of_mem_take h)
+    · exact Or.inl rfl
+    · exact Or.inr (List.mem_of_mem_drop h)
+
+theorem firstOfSeq_bound {nT : Nat} {fm : List FirstSet} (hb : FmBound nT fm) :
+    ∀ (β : List (Sym Nat Nat)) (ts : List Nat) (f : FirstSet), (∀ a, Sym.t a ∈ β → a < nT) → (∀ a ∈ ts, a < nT) →
+      firstOfSeq fm β ts = some f → ∀ a ∈ f.terminals, a < nT := by
+  intro β
+  induction β with
+  | nil => intro ts f _ hts h; simp only [firstOfSeq] at h; cases h; exact hts
+  | cons X rest ih =>
+    intro ts f hβ hts h
+    cases X with
+    | t a =>
+      simp only [firstOfSeq] at h
+      cases h
+      intro x hx
+      rcases mem_insert_sub hx with rfl | hx
+      · exact hβ _ List.mem_cons_self
+      · exact hts x hx
+    | n b =>
+      simp only [firstOfSeq] at h
+      split at h
+      · cases h
+      · rename_i f0 hf0
+        have hts' : ∀ a ∈ (Oset.extend ⟨ts⟩ f0.terminals).raw, a < nT := by
+          intro a ha
+          rcases (Oset.mem_extend _ _ a).mp ha with h1 | h1
+          · exact hts a h1
+          · exact hb f0 (List.mem_of_getElem? hf0) a h1
+        split at h
+        · exact ih _ f (fun a ha => hβ a (List.mem_cons_of_mem _ ha)) hts' h
+        · cases h; exact hts'
+
+theorem rhsOf_terminals {c : Ctx} (hwf : CtxWF c) (rule : Nat) : ∀ a, Sym.t a ∈ rhsOf c rule → a < c.nT := by
+  intro a ha
+  unfold rhsOf at ha
+  split at ha
+  · simp at ha
+  · split at ha
+    · rename_i r hr
+      exact hwf r (List.mem_of_getElem? hr) a ha
+    · cases ha
+
+theorem implied_wf {c : Ctx} {fm : List FirstSet} (hwf : CtxWF c) (hfb : FmBound c.nT fm) {x y : Item} {imp : List Item}
+    (hx : WfItem c x) (h : impliedItems c fm x = some imp) (hy : y ∈ imp) : WfItem c y := by
+  have hd := implied_dot h hy
+  refine ⟨Nat.le_of_lt hd.2, by rw [hd.1]; exact Nat.zero_le _, ?_⟩
+  unfold impliedItems at h
+  split at h
+  · split at h
+    · cases h
+    · rename_i las hlas
+      cases h
+      simp only [List.mem_flatMap, List.mem_map] at hy
+      obtain ⟨la, hla, r, _, rfl⟩ := hy
+      simp only
+      unfold augmentedFirst at hlas
+      split at hlas
+      · cases hlas
+      · rename_i f hf
+        have hft := firstOfSeq_bound hfb _ [] f
+          (fun a ha => rhsOf_terminals hwf x.rule a (List.mem_of_mem_drop ha)) (by intro a ha; cases ha) hf
+        split at hlas
+        · cases hlas
+          rcases List.mem_append.mp ((Oset.mem_ofList _ la).mp hla) with h1 | h1
+          · exact Nat.le_of_lt (hft la h1)
+          · simp at h1; subst h1; exact hx.2.2
+        · cases hlas
+          exact Nat.le_of_lt (hft la ((Oset.mem_ofList _ la).mp hla))
+  · cases h; cases hy
+
+theorem reach_wf {c : Ctx} {fm : List FirstSet} (hwf : CtxWF c) (hfb : FmBound c.nT fm) {K : List Item}
+    (hK : ∀ x ∈ K, WfItem c x) {y : Item} (h : Reach c fm K y) : WfItem c y := by
+  induction h with
+  | kernel hk => exact hK _ hk
+  | step _ himp hyi ih => exact implied_wf hwf hfb ih himp hyi
+
 /-! ### per-state and per-transition invariants -/
 
 def startItem (c : Ctx) : Item := ⟨c.numRules, c.nT, 0⟩
@@ -95,6 +215,7 @@ structure Good (c : Ctx) (fm : List FirstSet) (S : State) : Prop where
   sorted : Oset.Sorted S
   closed : Closed c fm S
   gen : ∀ y ∈ S, y.dot = 0 → y = startItem c ∨ ∃ x ∈ S, ∃ imp, impliedItems c fm x = some imp ∧ y ∈ imp
+  wf : ∀ y ∈ S, WfItem c y
 
 /-- every kernel item of the target is an item of the source moved over `X` -/
 def KernelOK (c : Ctx) (src tgt : State) (X : Sym Nat Nat) : Prop :=
@@ -126,6 +247,8 @@ structure BInv (c : Ctx) (fm : List FirstSet) (E : Nat → Sym Nat Nat → Prop)
     CReach c fm (fun p => ∃ x ∈ transitionItems c (b.states.getD t.frm []) t.sym, coreOf x = p) q
   /-- at most one transition per state and symbol -/
   func : ∀ t1 ∈ b.transitions, ∀ t2 ∈ b.transitions, t1.frm = t2.frm → t1.sym = t2.sym → t1.to = t2.to
+  /-- the augmented initial item lives in state 0 only -/
+  aug : ∀ i, i < b.states.length → i ≠ 0 → ∀ y ∈ b.states.getD i [], y.dot = 0 → y.rule < c.numRules
 
 /-! ### `enqueue_state_if_needed` -/
 
@@ -146,6 +269,7 @@ structure StepSpec (c : Ctx) (fm : List FirstSet) (b : Builder) (tgt : State) (b
   pick : ∀ k, k < b.states.length → SameCores tgt (b.states.getD k []) → k = j
   distinct : ∀ i k, i < b'.states.length → k < b'.states.length →
     SameCores (b'.states.getD i []) (b'.states.getD k []) → i = k
+  lenCases : b'.states.length = b.states.length ∨ (b'.states.length = b.states.length + 1 ∧ j = b.states.length)
 
 theorem StepSpec.sameCores {c : Ctx} {fm : List FirstSet} {b b' : Builder} {tgt : State} {j : Nat}
     (sp : StepSpec c fm b tgt b' j) {i : Nat} (hi : i < b.states.length) :
@@ -170,7 +294,7 @@ theorem StepSpec.sameJ {c : Ctx} {fm : List FirstSet} {b b' : Builder} {tgt : St
 
 theorem good_union {c : Ctx} {fm : List FirstSet} {A B U : State} (hA : Good c fm A) (hB : Good c fm B)
     (hs : Oset.Sorted U) (hm : ∀ y, y ∈ U ↔ y ∈ A ∨ y ∈ B) : Good c fm U := by
-  refine ⟨hs, ?_, ?_⟩
+  refine ⟨hs, ?_, ?_, fun y hy => ((hm y).mp hy).elim (hA.wf y) (hB.wf y)⟩
   · intro x hx imp himp y hy
     rcases (hm x).mp hx with h | h
     · exact (hm y).mpr (Or.inl (hA.closed x h imp himp y hy))
@@ -224,6 +348,7 @@ theorem enqueueState_spec {c : Ctx} {fm : List FirstSet} {E : Nat → Sym Nat Na
         queueSub := ?_
         queueLt := ?_
         transEq := rfl
+        lenCases := Or.inl hlen
         pick := ?_
         distinct := ?_ }
     · intro y hy
@@ -320,6 +445,7 @@ theorem enqueueState_spec {c : Ctx} {fm : List FirstSet} {E : Nat → Sym Nat Na
         queueSub := ?_
         queueLt := ?_
         transEq := rfl
+        lenCases := Or.inr ⟨hlen, rfl⟩
         pick := ?_
         distinct := ?_ }
     · intro y hy; rw [getD_append_len]; exact hy
@@ -376,36 +502,6 @@ theorem enqueueState_spec {c : Ctx} {fm : List FirstSet} {E : Nat → Sym Nat Na
 
 /-! ### `enqueue_transition_target` -/
 
-theorem mem_transitionItems {c : Ctx} {S : State} {X : Sym Nat Nat} {y : Item} :
-    y ∈ transitionItems c S X ↔ ∃ x ∈ S, symRightOfDot c x = some X ∧ y = { x with dot := x.dot + 1 } := by
-  unfold transitionItems
-  rw [List.mem_filterMap]
-  constructor
-  · rintro ⟨x, hx, h⟩
-    split at h
-    · rename_i hs; cases h; exact ⟨x, hx, hs, rfl⟩
-    · cases h
-  · rintro ⟨x, hx, hs, rfl⟩
-    exact ⟨x, hx, by rw [if_pos hs]⟩
-
-theorem implied_dot {c : Ctx} {fm : List FirstSet} {x y : Item} {imp : List Item}
-    (h : impliedItems c fm x = some imp) (hy : y ∈ imp) : y.dot = 0 ∧ y.rule < c.numRules := by
-  unfold impliedItems at h
-  split at h
-  · split at h
-    · cases h
-    · cases h
-      simp only [List.mem_flatMap, List.mem_map] at hy
-      obtain ⟨la, _, r, hr, rfl⟩ := hy
-      refine ⟨rfl, ?_⟩
-      unfold ruleIndicesFor at hr
-      simp only [List.mem_map, List.mem_filter] at hr
-      obtain ⟨⟨rule, j⟩, ⟨hm, _⟩, rfl⟩ := hr
-      have := List.mem_zipIdx hm
-      simp at this
-      exact this.1
-  · cases h; cases hy
-
 theorem insertTransition_mem {ts : List Transition} {t u : Transition} :
     u ∈ insertTransition ts t ↔ u ∈ ts ∨ u = t := by
   unfold insertTransition
@@ -439,18 +535,29 @@ theorem creach_congr {c : Ctx} {fm : List FirstSet} {A B : State} (X : Sym Nat N
   ⟨CReach.mono fun p => (transitionItems_cores X h p).mp, CReach.mono fun p => (transitionItems_cores X h p).mpr⟩
 
 /-- the closure of a non-empty set of moved items is a good state with a kernel item -/
-theorem good_of_closure {c : Ctx} {fm : List FirstSet} {src : State} {X : Sym Nat Nat} {fuel : Nat} {tgt : State}
+theorem good_of_closure {c : Ctx} {fm : List FirstSet} (hwf : CtxWF c) (hfb : FmBound c.nT fm)
+    {src : State} {X : Sym Nat Nat} {fuel : Nat} {tgt : State}
     (h : closureLoop c fm fuel (transitionItems c src X) Oset.new = some (some tgt))
-    (hX : ∃ x ∈ src, symRightOfDot c x = some X) :
+    (hX : ∃ x ∈ src, symRightOfDot c x = some X) (hsrc : ∀ x ∈ src, WfItem c x) :
     Good c fm tgt ∧ (∃ y ∈ tgt, 1 ≤ y.dot) ∧ (∀ y ∈ transitionItems c src X, y ∈ tgt) ∧
       (∀ y ∈ tgt, 1 ≤ y.dot → y ∈ transitionItems c src X) ∧
-      (∀ q, (∃ y ∈ tgt, coreOf y = q) ↔ CReach c fm (fun p => ∃ x ∈ transitionItems c src X, coreOf x = p) q) := by
+      (∀ q, (∃ y ∈ tgt, coreOf y = q) ↔ CReach c fm (fun p => ∃ x ∈ transitionItems c src X, coreOf x = p) q) ∧
+      (∀ y ∈ tgt, y.dot = 0 → y.rule < c.numRules) := by
   obtain ⟨h1, h2, h3, h4, h5, h6⟩ := closure_spec h
+  have hKwf : ∀ y ∈ transitionItems c src X, WfItem c y := by
+    intro y hy
+    obtain ⟨x, hx, hs, rfl⟩ := mem_transitionItems.mp hy
+    obtain ⟨w1, w2, w3⟩ := hsrc x hx
+    refine ⟨w1, ?_, w3⟩
+    unfold symRightOfDot at hs
+    have := (List.getElem?_eq_some_iff.mp hs).1
+    simp only
+    omega
   have kernel_dot : ∀ y ∈ transitionItems c src X, 1 ≤ y.dot := by
     intro y hy
     obtain ⟨x, _, _, rfl⟩ := mem_transitionItems.mp hy
     simp
-  refine ⟨⟨h1, h3, ?_⟩, ?_, h2, ?_, closure_cores h2 h3 h4 h6⟩
+  refine ⟨⟨h1, h3, ?_, fun y hy => reach_wf hwf hfb hKwf (h4 y hy)⟩, ?_, h2, ?_, closure_cores h2 h3 h4 h6, ?_⟩
   · intro y hy hd
     rcases h5 y hy with hk | hg
     · have := kernel_dot y hk; omega
@@ -462,8 +569,13 @@ theorem good_of_closure {c : Ctx} {fm : List FirstSet} {src : State} {X : Sym Na
     rcases h5 y hy with hk | ⟨x, _, imp, hi, hyi⟩
     · exact hk
     · have := (implied_dot hi hyi).1; omega
+  · intro y hy hd
+    rcases h5 y hy with hk | ⟨x, _, imp, hi, hyi⟩
+    · have := kernel_dot y hk; omega
+    · exact (implied_dot hi hyi).2
 
-theorem enqueueTarget_spec {c : Ctx} {fm : List FirstSet} {E E' : Nat → Sym Nat Nat → Prop} {b b' : Builder}
+theorem enqueueTarget_spec {c : Ctx} {fm : List FirstSet} (hwf : CtxWF c) (hfb : FmBound c.nT fm)
+    {E E' : Nat → Sym Nat Nat → Prop} {b b' : Builder}
     {fuel i : Nat} {X : Sym Nat Nat} (inv : BInv c fm E b) (hi : i < b.states.length)
     (hX : ∃ x ∈ b.states.getD i [], symRightOfDot c x = some X)
     (h : enqueueTransitionTarget c fm fuel b i X = some (some b'))
@@ -476,7 +588,7 @@ theorem enqueueTarget_spec {c : Ctx} {fm : List FirstSet} {E E' : Nat → Sym Na
   · cases h
   · cases h
   · rename_i tgt hcl
-    obtain ⟨hg, hk, hsubK, hkern, hcores⟩ := good_of_closure hcl hX
+    obtain ⟨hg, hk, hsubK, hkern, hcores, haug⟩ := good_of_closure hwf hfb hcl hX (inv.good i hi).wf
     have sp := enqueueState_spec inv hg hk
     generalize hres : enqueueStateIfNeeded b tgt = res at h sp
     obtain ⟨b1, j⟩ := res
@@ -493,7 +605,8 @@ theorem enqueueTarget_spec {c : Ctx} {fm : List FirstSet} {E E' : Nat → Sym Na
         done := ?_
         distinct := sp.distinct
         tcore := ?_
-        func := ?_ }
+        func := ?_
+        aug := ?_ }
     · intro t ht
       rcases insertTransition_mem.mp ht with ht | rfl
       · rw [sp.transEq] at ht
@@ -566,9 +679,25 @@ theorem enqueueTarget_spec {c : Ctx} {fm : List FirstSet} {E E' : Nat → Sym Na
           exact (key t2 ht2 e1.symm e2.symm).symm
         · rfl
 
+    · -- dot-0 items outside state 0 are original items
+      intro k hk' hk0 y hy hd
+      have hk' : k < b1.states.length := hk'
+      by_cases hlt : k < b.states.length
+      · obtain ⟨y0, hy0, e1, e2⟩ := sp.cores k hlt y hy
+        rw [e1]
+        exact inv.aug k hlt hk0 y0 hy0 (by omega)
+      · rcases sp.lenCases with e | ⟨e, ej⟩
+        · omega
+        · have hkj : k = j := by omega
+          subst hkj
+          obtain ⟨y0, hy0, e1, e2⟩ := sp.coreJ y hy
+          rw [e1]
+          exact haug y0 hy0 (by omega)
+
 /-! ### `enqueue_transition_targets` -/
 
-theorem enqueueTargets_spec {c : Ctx} {fm : List FirstSet} {E0 : Nat → Sym Nat Nat → Prop} {fuel i : Nat} :
+theorem enqueueTargets_spec {c : Ctx} {fm : List FirstSet} (hwf : CtxWF c) (hfb : FmBound c.nT fm)
+    {E0 : Nat → Sym Nat Nat → Prop} {fuel i : Nat} :
     ∀ (ks : List Nat) (b b' : Builder),
       BInv c fm (fun i' X' => E0 i' X' ∨ (i' = i ∧ ∃ k ∈ ks, X' = keySym c k)) b → i < b.states.length →
       (∀ k ∈ ks, ∃ x ∈ b.states.getD i [], symRightOfDot c x = some (keySym c k)) →
@@ -579,7 +708,7 @@ theorem enqueueTargets_spec {c : Ctx} {fm : List FirstSet} {E0 : Nat → Sym Nat
     intro b b' inv hi _ h
     simp only [enqueueTargets] at h
     cases h
-    refine ⟨inv.nonempty, inv.good, inv.queue, inv.trans, inv.zero, ?_, inv.distinct, inv.tcore, inv.func⟩
+    refine ⟨inv.nonempty, inv.good, inv.queue, inv.trans, inv.zero, ?_, inv.distinct, inv.tcore, inv.func, inv.aug⟩
     intro i' hi' hq X' hX'
     rcases inv.done i' hi' hq X' hX' with (h | ⟨_, k, hk, _⟩) | h
     · exact Or.inl h
@@ -592,7 +721,7 @@ theorem enqueueTargets_spec {c : Ctx} {fm : List FirstSet} {E0 : Nat → Sym Nat
     · cases h
     · cases h
     · rename_i b1 hstep
-      obtain ⟨inv1, hlen, hmono⟩ := enqueueTarget_spec (E' := fun i' X' => E0 i' X' ∨ (i' = i ∧ ∃ k ∈ ks, X' = keySym c k))
+      obtain ⟨inv1, hlen, hmono⟩ := enqueueTarget_spec hwf hfb (E' := fun i' X' => E0 i' X' ∨ (i' = i ∧ ∃ k ∈ ks, X' = keySym c k))
         inv hi (hks k List.mem_cons_self) hstep (by
           intro i' X' hE
           rcases hE with h | ⟨rfl, k', hk', rfl⟩
@@ -606,9 +735,6 @@ theorem enqueueTargets_spec {c : Ctx} {fm : List FirstSet} {E0 : Nat → Sym Nat
       exact ⟨x, hmono i hi x hx, hs⟩
 
 /-! ### the main loop -/
-
-/-- terminals of the coded grammar are below `nT` (established by `Encode`) -/
-def CtxWF (c : Ctx) : Prop := ∀ r ∈ c.g.rules, ∀ a, Sym.t a ∈ r.rhs → a < c.nT
 
 theorem keySym_symKey {c : Ctx} (hwf : CtxWF c) {x : Item} {X : Sym Nat Nat} (h : symRightOfDot c x = some X) :
     keySym c (symKey c X) = X := by
@@ -638,7 +764,7 @@ theorem mem_symbolsRightOfDot {c : Ctx} {S : State} {k : Nat} :
   · rintro ⟨x, hx, X, hs, rfl⟩
     exact ⟨x, hx, by rw [hs]; rfl⟩
 
-theorem buildLoop_spec {c : Ctx} {fm : List FirstSet} (hwf : CtxWF c) {cf : Nat} :
+theorem buildLoop_spec {c : Ctx} {fm : List FirstSet} (hwf : CtxWF c) (hfb : FmBound c.nT fm) {cf : Nat} :
     ∀ (fuel : Nat) (b b' : Builder), BInv c fm (fun _ _ => False) b →
       buildLoop c fm cf fuel b = some (some b') → BInv c fm (fun _ _ => False) b' ∧ b'.queue = [] := by
   intro fuel
@@ -666,6 +792,7 @@ theorem buildLoop_spec {c : Ctx} {fm : List FirstSet} (hwf : CtxWF c) {cf : Nat}
             queue := fun k hk => inv.queue k (List.mem_cons_of_mem _ hk)
             trans := inv.trans
             zero := inv.zero
+            aug := inv.aug
             distinct := inv.distinct
             tcore := inv.tcore
             func := inv.func
@@ -684,17 +811,17 @@ theorem buildLoop_spec {c : Ctx} {fm : List FirstSet} (hwf : CtxWF c) {cf : Nat}
                 rcases inv.done i' hi' this X' hX' with h | h
                 · exact absurd h id
                 · exact Or.inr h }
-        have inv1 := enqueueTargets_spec (E0 := fun _ _ => False) _ _ _ inv0 hi (by
+        have inv1 := enqueueTargets_spec hwf hfb (E0 := fun _ _ => False) _ _ _ inv0 hi (by
           intro k hk
           obtain ⟨x, hx, X, hs, rfl⟩ := mem_symbolsRightOfDot.mp hk
           exact ⟨x, hx, by rw [keySym_symKey hwf hs]; exact hs⟩) hstep
         exact ih b1 b' inv1 h
 
 /-- the builder `validated_ast_to_machine` starts from -/
-theorem initial_inv {c : Ctx} {fm : List FirstSet} {fuel : Nat} {start : State}
+theorem initial_inv {c : Ctx} {fm : List FirstSet} (hwf : CtxWF c) (hfb : FmBound c.nT fm) {fuel : Nat} {start : State}
     (h : closureLoop c fm fuel [startItem c] Oset.new = some (some start)) :
     BInv c fm (fun _ _ => False) ⟨[start], [], [0]⟩ ∧ startItem c ∈ start := by
-  obtain ⟨h1, h2, h3, _, h5, _⟩ := closure_spec h
+  obtain ⟨h1, h2, h3, h4, h5, _⟩ := closure_spec h
   have hz : ∀ y ∈ start, y.dot = 0 := by
     intro y hy
     rcases h5 y hy with hk | ⟨x, _, imp, hi, hyi⟩
@@ -710,15 +837,21 @@ theorem initial_inv {c : Ctx} {fm : List FirstSet} {fuel : Nat} {start : State}
       done := by intro i hi hq; simp at hi; subst hi; simp at hq
       distinct := by intro i j hi hj _; simp at hi hj; omega
       tcore := by intro t ht; cases ht
-      func := by intro t ht; cases ht }
+      func := by intro t ht; cases ht
+      aug := by intro i hi h0; simp at hi; omega }
   intro i hi
   simp at hi; subst hi
   simp only [List.getD_cons_zero]
-  refine ⟨h1, h3, ?_⟩
-  intro y hy _
-  rcases h5 y hy with hk | hg
-  · left; simpa using hk
-  · exact Or.inr hg
+  refine ⟨h1, h3, ?_, ?_⟩
+  · intro y hy _
+    rcases h5 y hy with hk | hg
+    · left; simpa using hk
+    · exact Or.inr hg
+  · intro y hy
+    refine reach_wf hwf hfb ?_ (h4 y hy)
+    intro x hx
+    simp at hx; subst hx
+    refine ⟨Nat.le_refl _, Nat.zero_le _, Nat.le_refl _⟩
 
 end Machine
 end KikiVerif
